@@ -109,13 +109,26 @@ def parseOp (pool : List Path) (t : List String) : Option Op :=
   | ["readfile", p] => some (.readFile (parsePath p))
   | ["writefile", p, d] => some (.writeFile (parsePath p) (unhex d))
   | ["dump"] => some (.dump pool)
-  | ["crash"] => some .crash
+  | "crash" :: _ => some .crash   -- `crash`, `crash re`, `crash twice`: one Fs::crash (crash ∘ crash = crash)
+  | _ => none
+
+/-- harness ops that are not model `Op`s: they are replayed as compositions of model steps
+    (`copy` = `read` then `write`, as in the shim) or directly on the handle table (`try_clone`) -/
+inductive Ext where
+  | copy (p q : Path)
+  | clone (s s2 : Nat)
+
+def parseExt (t : List String) : Option Ext :=
+  match t with
+  | ["copy", p, q] => some (.copy (parsePath p) (parsePath q))
+  | ["clone", s, s2] => some (.clone (natOf s % 4) (natOf s2 % 4))
   | _ => none
 
 structure Rec where
   line : Nat
   host : Nat
   op : Option Op
+  ext : Option Ext := none
   ora : Ora := {}
   obs : String := ""
 
@@ -222,76 +235,128 @@ def allFixes : List Fixes :=
   let cnt (f : Fixes) : Nat := ((fxName f).splitOn "+").length
   (all.filter (· != {})).toArray.qsort (fun x y => cnt x < cnt y) |>.toList
 
+structure Acc where
+  sts : Array St := #[St.init, St.init]
+  sps : Array Spec := #[Spec.init, Spec.init]
+  crashed : Array Bool := #[false, false]
+  taints : Array (List Taint) := #[[], []]
+  -- is the history of each fs instance inside the proved fragments (up to its first crash)?
+  inFrag : Array Bool := #[true, true]
+  inFlat : Array Bool := #[true, true]
+  used : Array Bool := #[false, false]
+  v : Verdict := {}
+
+/-- one model step + one spec step (`opS` differs from `op` only in the second half of a `copy`, where
+    each side writes the bytes it has read itself); `okLen`: render `ok` as `ok <n>` (`copy`) -/
+def evalOne (prop : String) (cfg : Cfg) (fx : Fixes) (a : Acc) (line h : Nat) (op opS : Op) (ora : Ora)
+    (implObs : String) (okLen : Option Nat := none) : Acc := Id.run do
+  let mut a := a
+  let mut v := a.v
+  let st := a.sts[h]!
+  let sp := a.sps[h]!
+  let render (o : Obs) : String := match o, okLen with
+    | .ok, some n => s!"ok {n}"
+    | o, _ => renderObs o
+  v := { v with cov := addCov v.cov (covOf st op ora) }
+  let (st1, mo) := if fx == {} then step cfg st op ora else stepFx fx cfg st op ora
+  let (sp1, so) := if fx == {} then sStep cfg sp opS ora else sStepFx fx cfg sp opS ora
+  a := { a with sts := a.sts.set! h st1, sps := a.sps.set! h sp1 }
+  let ts := (monStepOk a.taints[h]! st sp op (mo == .ok)).filter fun t => !(repairedIds fx).contains t.1
+  a := { a with taints := a.taints.set! h ts, used := a.used.set! h true }
+  if !a.crashed[h]! && op != .crash then
+    a := { a with inFrag := a.inFrag.set! h (a.inFrag[h]! && fragOk sp.l op && !ora.coin),
+                  inFlat := a.inFlat.set! h (a.inFlat[h]! && fragOk sp.l op && opFlat op && !ora.coin) }
+  for t in patternsAt st sp op do
+    v := { v with cov := addCov v.cov [s!"hit{t.1}"] }
+  -- C07 compares the view *right after* a crash: any later mutation ends that window
+  let observer := match op with
+    | .dump _ => true | .stat _ => true | .exists _ => true | .readDir _ => true | .readFile _ => true
+    | _ => false
+  if op == .crash then a := { a with crashed := a.crashed.set! h true }
+  else if !observer then a := { a with crashed := a.crashed.set! h false }
+  let ms := render mo
+  if v.kOk && ms != implObs then
+    v := { v with kOk := false, kLine := line, kDetail := s!"model={ms} impl={implObs}" }
+  if v.oOk then
+    let ss := render so
+    let bad : List Path :=
+      if prop == "C10" then
+        if ss == implObs then [] else
+        match op with
+        | .dump _ => dumpDiff false sp1 ss implObs
+        | _ => let ps := opPaths st op; if ps.isEmpty then [[]] else ps
+      else
+        match op with
+        | .dump _ => if a.crashed[h]! then dumpDiff true sp1 ss implObs else []
+        | _ => []
+    if !bad.isEmpty then
+      -- C07: growing past a pending SetLen (finding 1) is a live-view defect only; it never
+      -- reaches the durable image, so it explains nothing there
+      -- (the same holds for finding 6: two pending renames are flushed in order by sync_dir)
+      -- finding 11 is a durability defect only (the live view is right)
+      let ts := if prop == "C07" then ts.filter (fun t => t.1 != 1 && t.1 != 6)
+                else ts.filter (fun t => t.1 != 11)
+      let pat := match explain ts bad with
+        | some n => findingId prop n
+        | none => "none"
+      let lbl := if prop == "C10" then "posix" else "durable"
+      v := { v with oOk := false, oLine := line, pattern := pat,
+                    oDetail := s!"at={" ".intercalate (bad.map renderPath)} {lbl}={ss} impl={implObs}" }
+  return { a with v := v }
+
+/-- `std::fs::copy(p, q)` = `read(p)` then `write(q, bytes)`.  The read half is compared against the
+    model's own result (under K the implementation's), so a live-view divergence at `p` is an O failure
+    there; the write half carries the recorded observation (`ok <len>` or the write's error). -/
+def evalCopy (prop : String) (cfg : Cfg) (fx : Fixes) (a : Acc) (line h : Nat) (p q : Path) (ora : Ora)
+    (implObs : String) : Acc :=
+  let st := a.sts[h]!
+  let sp := a.sps[h]!
+  let mo := (if fx == {} then step cfg st (.readFile p) {} else stepFx fx cfg st (.readFile p) {}).2
+  let so := (if fx == {} then sStep cfg sp (.readFile p) {} else sStepFx fx cfg sp (.readFile p) {}).2
+  match mo with
+  | .data bm =>
+    let bs := match so with | .data b => b | _ => bm
+    let a1 := evalOne prop cfg fx a line h (.readFile p) (.readFile p) {} (renderObs mo)
+    let tp := a1.taints[h]!.filter fun t => t.2 == p
+    let a2 := evalOne prop cfg fx a1 line h (.writeFile q bm) (.writeFile q bs) ora implObs (some bm.length)
+    -- what was wrong at `p` is now wrong at `q` too
+    { a2 with taints := a2.taints.set! h (a2.taints[h]! ++ tp.map fun t => (t.1, q)) }
+  | _ => evalOne prop cfg fx a line h (.readFile p) (.readFile p) {} implObs
+
+/-- `File::try_clone`: a second handle on the same file with its own cursor at 0 (as documented by the
+    shim; `dup(2)` would share the cursor) -/
+def evalClone (prop : String) (a : Acc) (line h s s2 : Nat) (implObs : String) : Acc := Id.run do
+  let st := a.sts[h]!
+  let sp := a.sps[h]!
+  let (st1, mo) : St × Obs := match getSlot st s with
+    | some hd => (setSlot st s2 { hd with cursor := 0 }, .ok)
+    | none => (st, .noslot)
+  let (sp1, so) : Spec × Obs := match sGetSlot sp.l s with
+    | some hd => ({ sp with l := sSetSlot sp.l s2 { hd with cursor := 0 } }, .ok)
+    | none => (sp, .noslot)
+  let mut v := a.v
+  v := { v with cov := addCov v.cov ["clone"] }
+  if v.kOk && renderObs mo != implObs then
+    v := { v with kOk := false, kLine := line, kDetail := s!"model={renderObs mo} impl={implObs}" }
+  if v.oOk && prop == "C10" && renderObs so != implObs then
+    v := { v with oOk := false, oLine := line, oDetail := s!"at=/ posix={renderObs so} impl={implObs}" }
+  return { a with sts := a.sts.set! h st1, sps := a.sps.set! h sp1, used := a.used.set! h true,
+                  inFrag := a.inFrag.set! h false, inFlat := a.inFlat.set! h false, v := v }
+
 def evalCase (prop : String) (c : CaseIn) (fx : Fixes := {}) : Verdict := Id.run do
   let cfg : Cfg := { block := c.block }
-  let mut sts : Array St := #[St.init, St.init]
-  let mut sps : Array Spec := #[Spec.init, Spec.init]
-  let mut crashed : Array Bool := #[false, false]
-  let mut taints : Array (List Taint) := #[[], []]
-  -- is the history of each fs instance inside the proved fragments (up to its first crash)?
-  let mut inFrag : Array Bool := #[true, true]
-  let mut inFlat : Array Bool := #[true, true]
-  let mut used : Array Bool := #[false, false]
-  let mut v : Verdict := {}
+  let mut a : Acc := {}
   for r in c.recs do
     let h := r.host % 2
-    match r.op with
-    | none =>
-      if v.kOk then v := { v with kOk := false, kLine := r.line, kDetail := "unparsed op" }
-    | some op =>
-      let st := sts[h]!
-      let sp := sps[h]!
-      v := { v with cov := addCov v.cov (covOf st op r.ora) }
-      let (st1, mo) := if fx == {} then step cfg st op r.ora else stepFx fx cfg st op r.ora
-      let (sp1, so) := if fx == {} then sStep cfg sp op r.ora else sStepFx fx cfg sp op r.ora
-      sts := sts.set! h st1
-      sps := sps.set! h sp1
-      let ts := (monStepOk taints[h]! st sp op (mo == .ok)).filter fun t => !(repairedIds fx).contains t.1
-      taints := taints.set! h ts
-      used := used.set! h true
-      if !crashed[h]! && op != .crash then
-        inFrag := inFrag.set! h (inFrag[h]! && fragOk sp.l op && !r.ora.coin)
-        inFlat := inFlat.set! h (inFlat[h]! && fragOk sp.l op && opFlat op && !r.ora.coin)
-      for t in patternsAt st sp op do
-        v := { v with cov := addCov v.cov [s!"hit{t.1}"] }
-      -- C07 compares the view *right after* a crash: any later mutation ends that window
-      let observer := match op with
-        | .dump _ => true | .stat _ => true | .exists _ => true | .readDir _ => true | .readFile _ => true
-        | _ => false
-      if op == .crash then crashed := crashed.set! h true
-      else if !observer then crashed := crashed.set! h false
-      let ms := renderObs mo
-      if v.kOk && ms != r.obs then
-        v := { v with kOk := false, kLine := r.line, kDetail := s!"model={ms} impl={r.obs}" }
-      if v.oOk then
-        let ss := renderObs so
-        let bad : List Path :=
-          if prop == "C10" then
-            if ss == r.obs then [] else
-            match op with
-            | .dump _ => dumpDiff false sp1 ss r.obs
-            | _ => let ps := opPaths st op; if ps.isEmpty then [[]] else ps
-          else
-            match op with
-            | .dump _ => if crashed[h]! then dumpDiff true sp1 ss r.obs else []
-            | _ => []
-        if !bad.isEmpty then
-          -- C07: growing past a pending SetLen (finding 1) is a live-view defect only; it never
-          -- reaches the durable image, so it explains nothing there
-          -- (the same holds for finding 6: two pending renames are flushed in order by sync_dir)
-          -- finding 11 is a durability defect only (the live view is right)
-          let ts := if prop == "C07" then ts.filter (fun t => t.1 != 1 && t.1 != 6)
-                    else ts.filter (fun t => t.1 != 11)
-          let pat := match explain ts bad with
-            | some n => findingId prop n
-            | none => "none"
-          let lbl := if prop == "C10" then "posix" else "durable"
-          v := { v with oOk := false, oLine := r.line, pattern := pat,
-                        oDetail := s!"at={" ".intercalate (bad.map renderPath)} {lbl}={ss} impl={r.obs}" }
-  let fragAll := (List.range 2).all fun i => !used[i]! || inFrag[i]!
-  let flatAll := (List.range 2).all fun i => !used[i]! || inFlat[i]!
-  v := { v with cov := addCov v.cov ((if fragAll then ["infrag"] else []) ++ (if flatAll then ["inflat"] else [])) }
-  return v
+    match r.ext, r.op with
+    | some (.copy p q), _ => a := evalCopy prop cfg fx a r.line h p q r.ora r.obs
+    | some (.clone s s2), _ => a := evalClone prop a r.line h s s2 r.obs
+    | none, none =>
+      if a.v.kOk then a := { a with v := { a.v with kOk := false, kLine := r.line, kDetail := "unparsed op" } }
+    | none, some op => a := evalOne prop cfg fx a r.line h op op r.ora r.obs
+  let fragAll := (List.range 2).all fun i => !a.used[i]! || a.inFrag[i]!
+  let flatAll := (List.range 2).all fun i => !a.used[i]! || a.inFlat[i]!
+  return { a.v with cov := addCov a.v.cov ((if fragAll then ["infrag"] else []) ++ (if flatAll then ["inflat"] else [])) }
 
 /-! ### trace reader -/
 
@@ -365,7 +430,7 @@ partial def readLoop (prop : String) (memo : IO.Ref (Option Fixes)) (h : IO.FS.H
     | "OP" :: actor :: rest =>
       let c := cur.getD {}
       let host := natOf (actor.drop 1).toString
-      let r : Rec := { line := lineNo, host := host, op := parseOp c.pool rest }
+      let r : Rec := { line := lineNo, host := host, op := parseOp c.pool rest, ext := parseExt rest }
       readLoop prop memo h lineNo (some { c with recs := c.recs.push r }) cases kmis ofail
     | "ORA" :: kind :: val :: _ =>
       let c := cur.getD {}
